@@ -132,10 +132,10 @@ def run_shard(tier: str, seed: int, shard):
     acc = Acc(ID)
     dy, other = grid(tier, seed)
     if part == "dyadic":
-        check(acc, name, dy, True)
+        acc.guard({"hedge": name, "x": 0.5}, check, acc, name, dy, True)
         acc.sample({"hedge": name, "x": dy[3], "value": float(impl_of(name).hedge(dy[3]))})
     else:
-        check(acc, name, other, False)
+        acc.guard({"hedge": name, "x": 0.5}, check, acc, name, other, False)
     return acc.result()
 
 
